@@ -31,7 +31,7 @@ claim("C01",
       "inside the stated widths is covered by the solver.",
       "dashu's arithmetic is trusted (recording stubs); bignum/rational operand arms outside "
       "(Kani mis-models TypedArenaPtr::deref); widths: full 56-bit for + - neg abs bit-ops "
-      "shifts, 16x16 / 55x7 bits for *, 16x16 for // rem mod, 8x8 for div, |x|<64 for gcd.",
+      "shifts, 16x16 (+55x7, 7x55 in thorough) bits for *, 8x8 for // rem mod div, |x|<64 for gcd.",
       K, "DESIGN.md §4 C01")
 claim("C02",
       "Bounded model checking over every finite double of classify_float, + (and * / in "
